@@ -319,7 +319,9 @@ impl Enforcer {
             let eval_result = self
                 .engine
                 .eval_ast_with_scope::<bool>(&mut scope, &m_ast_compiled)?;
-            let eft = match p_ast.tokens.iter().position(|x| x == "p_eft") {
+            // the effect column of the context's policy type is `<ptype>_eft`
+            let eft_token = format!("{}_eft", ctx.p_type);
+            let eft = match p_ast.tokens.iter().position(|x| *x == eft_token) {
                 Some(j) if eval_result => {
                     let p_eft = &pvals[j];
                     if p_eft == "deny" {
